@@ -63,9 +63,13 @@ Theorem C09_noop_symlink_error_skip : forall fx modf acts l x a rest,
 Proof. exact noop_symlink_policy. Qed.
 Print Assumptions C09_noop_symlink_error_skip.
 
-(* (f) a followed symlink changes only its target *)
+(* (f) a followed symlink changes only its final target: x is a symlink whose chain (any number of
+       hops up to the kernel's limit) ends at t; processing x under a tuple that starts with
+       SYMFOLLOW leaves every path other than t as it was - in particular x itself and every
+       intermediate link stay the same links (t is not a link: resolve stops at the first non-link) *)
 Theorem C09_follow_changes_only_target : forall fx modf acts l x t rest p,
-  acts = SymFollow :: rest -> pfs (lst l) x = Some (NLink t) -> islink (pfs (lst l)) t = false -> p <> t ->
+  acts = SymFollow :: rest -> islink (pfs (lst l)) x = true ->
+  resolve max_hops (pfs (lst l)) x = Some t -> p <> t ->
   pfs (lst (file_step fx modf acts l x)) p = pfs (lst l) p.
 Proof. exact follow_only_target. Qed.
 Print Assumptions C09_follow_changes_only_target.
@@ -151,6 +155,13 @@ Example C09_nonvacuous_policy :
   fold_options repaired_code true [OActions [Print; Query; Replace]; OSymlinks SVFollow; ODiff] = Some [SymFollow; Diff] /\
   fold_options repaired_code false [] = Some [SymErr; Print] /\
   fold_options repaired_code true [OSymlinksBad; OReplace] = None.
+Proof. vm_compute. repeat split. Qed.
+Example C09_nonvacuous_chain :   (* 5 -> 4 -> 2 -> 1: follow rewrites file 1 only; a loop and a binary file are reported *)
+  let f := upd (upd (upd (upd (upd ex_fs 4 (Some (NLink 2))) 5 (Some (NLink 4))) 6 (Some (NLink 7))) 7 (Some (NLink 6))) 8 (Some (NBin 0)) in
+  let r := process repaired_code ex_modf [SymFollow; Replace] [APath 6; APath 8; APath 5] [] f 1 in
+  rfs r 1%N = Some (NFile [97; 33] 1) /\ rfs r 2%N = Some (NLink 1) /\ rfs r 4%N = Some (NLink 2) /\ rfs r 5%N = Some (NLink 4) /\
+  rfs r 8%N = Some (NBin 0) /\ rerrors r = [(6%N, ErrBadFilename); (8%N, ErrRead)] /\ rlog r = [(8%N, Error ErrRead); (5%N, Normal)] /\
+  resolve max_hops f 5 = Some 1%N /\ resolve max_hops f 6 = None.
 Proof. vm_compute. repeat split. Qed.
 Example C09_nonvacuous_query :
   let r := process repaired_code ex_modf [Query; Replace] [APath 1; APath 3] [[32; 89]; [110]] ex_fs 1 in
